@@ -197,6 +197,9 @@ class Probe(SourceProxy):
     def __exit__(self, exc_type=None, exc=None, tb=None):
         if self._root is not self:
             return self._root.__exit__(exc_type, exc, tb)
+        if not getattr(self, "_live", False):
+            # Never activated, or deactivated already: nothing to complete
+            return
         # Completing the stream can raise (e.g. min() of an empty stream).
         # Every observer must still be completed, and the probe must be
         # uninstalled regardless; the first error is raised at the end.
